@@ -2,10 +2,27 @@ import QeepProps.C12
 import QeepProps.C13
 import QeepProps.C15
 /-!
-# C15, continued — Sigmoid, LeakyRelu (and rank-1 Softmax): local backward passes
+# C15, continued — Sigmoid, LeakyRelu and rank-1 Softmax: graphs and local backward passes
 
-Same structure as `QeepProps/C15.lean`: for each activation, the *local* backward pass through the back edges the
-forward pass creates, evaluated with the Model's rules (`evalRule`), for every input shape and all values over `ℝ`.
+Same structure as `QeepProps/C15.lean` (Relu, Tanh), over `ℝ`, for every input shape and all values:
+
+* `*_graph`     : the tensors the activation's forward pass allocates on a tracked, unspent input, their values and
+                  their back edges (which rule on which edge) — by inversion of the successful run;
+* `*_local_vjp` : the *local* backward pass along those edges evaluated with the Model's rules (`evalRule`): if `G` is
+                  the gradient arriving at the activation's result, the contributions arriving at the activation's
+                  input, added in the order the walk adds them, are `G_i · act'(x_i)`; and `act'` is the Mathlib
+                  derivative (`HasDerivAt`);
+* `*_vjp_on_graph` : both together, on the heap the forward pass returns.
+
+Sigmoid : `σ' = σ(1−σ)` (`sigmoid_local_vjp`, `d_sig`) — both modes of the `Broadcast` rule (only identity broadcasts).
+LeakyRelu : `1` above the tie band `|x| ≤ 1e-240` of the library's `Eq`, `m` below, `(1+m)/2` inside
+  (`leaky_local_vjp`, `leakyD_cases`) — both modes.
+Softmax (`Dim = 0`, input of shape `[n]`, every `n`): `s_j (G_j − Σ_i G_i s_i)`, i.e. `G` times the Jacobian
+  `s_i (δ_ij − s_j)` (`softmax_local_vjp`, `d_softmax`, `softmax_jacobian_vjp`, `softmax_vjp_deriv`) — for the `Broadcast`
+  rule in `sum` mode ONLY. The graph contains a genuine expansion `[1] → [n]` of the denominator; in `mean` mode (the
+  library, finding D2) the chain delivers `s_j (G_j − (1/n) Σ_i G_i s_i)` (`softmax_local_vjp_mean_partial`), which is
+  not the vector-Jacobian product for `n > 1` (`softmax_mean_ne_vjp`).
+  `softmax_graph` also gives the forward value `r_j = exp(x_j) / Σ_k exp(x_k)` (rank 1).
 -/
 set_option linter.unusedSimpArgs false
 set_option linter.unusedSectionVars false
@@ -210,6 +227,34 @@ theorem hBroadcast_live {x : Nat} {s : List Int} {H H' : Heap α} {r : Nat} (h :
   rw [e0, e1] at h2
   obtain ⟨_, v, e, c, l'⟩ := op1_live h2 l
   exact ⟨v, e, c, l'⟩
+
+theorem hAlong_live {rd : Reducer} {x : Nat} {d : Int} {H H' : Heap α} {r : Nat} (h : hAlong rd x d H = .ok (r, H'))
+    (l : Live H x) :
+    vAlong rd (H.val x) d = .ok (H'.val r) ∧ Extends H H' ∧ H'.ctx r = liveCtx [⟨x, alongRule rd x r d.toNat⟩] ∧ Live H' r := by
+  unfold hAlong at h
+  obtain ⟨H0, H1, h1, h2⟩ := bind_ok h
+  obtain ⟨e0, e1⟩ := getHeap_ok h1
+  rw [e0, e1] at h2
+  obtain ⟨_, v, e, c, l'⟩ := op1_live h2 l
+  exact ⟨v, e, c, l'⟩
+
+theorem hUnSqueeze_live {x : Nat} {d : Int} {H H' : Heap α} {r : Nat} (h : hUnSqueeze x d H = .ok (r, H'))
+    (l : Live H x) :
+    vUnSqueeze (H.val x) d = .ok (H'.val r) ∧ Extends H H' ∧ H'.ctx r = liveCtx [⟨x, .reshapeX x⟩] ∧ Live H' r := by
+  unfold hUnSqueeze at h
+  obtain ⟨H0, H1, h1, h2⟩ := bind_ok h
+  obtain ⟨e0, e1⟩ := getHeap_ok h1
+  rw [e0, e1] at h2
+  obtain ⟨_, v, e, c, l'⟩ := op1_live h2 l
+  exact ⟨v, e, c, l'⟩
+
+theorem ran_hUnSqueeze (x : Nat) (d : Int) (H : Heap α) (v : Tensor α) (h : vUnSqueeze (H.val x) d = .ok v) :
+    ∃ r H', Ran (hUnSqueeze x d) H v r H' := by
+  obtain ⟨r, H', hr⟩ := ran_hOp1 x v (fun _ => Rule.reshapeX x) H
+  refine ⟨r, H', ⟨?_, hr.val, hr.ext, hr.lt, hr.ge⟩⟩
+  unfold hUnSqueeze
+  rw [bind_run (show (getHeap : HM α (Heap α)) H = .ok (H, H) from rfl), h]
+  exact hr.run
 
 /-- ElMax / ElMin: two tie-aware back edges -/
 theorem hCmp_ext_live {c : Cmp} {a b : Nat} {H H' : Heap α} {r : Nat} (hc : c = .elmax ∨ c = .elmin)
@@ -861,6 +906,274 @@ theorem softmax_mean_ne_vjp (X : Tensor ℝ) (wX : X.WF) (n : Nat) (hn : 1 < n) 
   apply hn1
   field_simp at h4
   linarith
+
+/-! ### the Softmax Jacobian (Mathlib) -/
+
+/-- softmax on `Fin n → ℝ` -/
+noncomputable def softmaxF {n : ℕ} (x : Fin n → ℝ) (i : Fin n) : ℝ := Real.exp (x i) / ∑ k, Real.exp (x k)
+
+/-- **`∂ softmax_i / ∂ x_j = s_i (δ_ij − s_j)`** -/
+theorem d_softmax {n : ℕ} (x : Fin n → ℝ) (i j : Fin n) :
+    HasDerivAt (fun t => softmaxF (Function.update x j t) i)
+      (softmaxF x i * ((if i = j then 1 else 0) - softmaxF x j)) (x j) := by
+  have hD : HasDerivAt (fun t => ∑ k, Real.exp (Function.update x j t k)) (Real.exp (x j)) (x j) := by
+    have := hasDerivAt_weighted_map Real.exp Real.exp x (fun _ => 1) j (Real.hasDerivAt_exp (x j))
+    simpa using this
+  have hN : HasDerivAt (fun t => Real.exp (Function.update x j t i)) (if i = j then Real.exp (x j) else 0) (x j) := by
+    by_cases hij : i = j
+    · subst hij
+      simp only [Function.update_self, if_true]
+      exact Real.hasDerivAt_exp (x i)
+    · simp only [Function.update_of_ne hij, hij, if_false]
+      exact hasDerivAt_const _ _
+  have hS : (0 : ℝ) < ∑ k, Real.exp (x k) :=
+    Finset.sum_pos (fun k _ => Real.exp_pos (x k)) ⟨j, Finset.mem_univ j⟩
+  have hne : (fun t => ∑ k, Real.exp (Function.update x j t k)) (x j) ≠ 0 := by
+    simp only [Function.update_eq_self]; exact hS.ne'
+  have h := hN.div hD hne
+  unfold softmaxF
+  refine h.congr_deriv ?_
+  simp only [Function.update_eq_self]
+  have := hS.ne'
+  by_cases hij : i = j
+  · subst hij; simp only [if_true]; field_simp
+  · simp only [hij, if_false]; field_simp; ring
+
+/-- the product of an upstream gradient with that Jacobian -/
+theorem softmax_jacobian_vjp {n : ℕ} (x g : Fin n → ℝ) (j : Fin n) :
+    ∑ i, g i * (softmaxF x i * ((if i = j then 1 else 0) - softmaxF x j))
+      = softmaxF x j * (g j - ∑ i, g i * softmaxF x i) := by
+  have h1 : ∀ i, g i * (softmaxF x i * ((if i = j then 1 else 0) - softmaxF x j))
+      = (if i = j then g i * softmaxF x i else 0) - softmaxF x j * (g i * softmaxF x i) := by
+    intro i
+    by_cases hij : i = j
+    · simp only [hij, if_true]; ring
+    · simp only [hij, if_false]; ring
+  simp only [h1, Finset.sum_sub_distrib, Finset.sum_ite_eq', Finset.mem_univ, if_true, ← Finset.mul_sum]
+  ring
+
+/-- **the vector-Jacobian product of Softmax**: the partial derivative with respect to `x_j` of the `g`-weighted sum of
+    the outputs is `s_j (g_j − Σ_i g_i s_i)` — what `softmax_local_vjp` shows the rules deliver -/
+theorem softmax_vjp_deriv {n : ℕ} (x g : Fin n → ℝ) (j : Fin n) :
+    HasDerivAt (fun t => ∑ i, g i * softmaxF (Function.update x j t) i)
+      (softmaxF x j * (g j - ∑ i, g i * softmaxF x i)) (x j) := by
+  have h : ∀ i ∈ (Finset.univ : Finset (Fin n)),
+      HasDerivAt (fun t => g i * softmaxF (Function.update x j t) i)
+        (g i * (softmaxF x i * ((if i = j then 1 else 0) - softmaxF x j))) (x j) :=
+    fun i _ => (d_softmax x i j).const_mul (g i)
+  have := HasDerivAt.fun_sum h
+  rw [softmax_jacobian_vjp] at this
+  exact this
+
+/-- bridge: the list-level quantities of `softmax_local_vjp` are the `Fin n` ones -/
+theorem smax_ofFn {n : ℕ} (x : Fin n → ℝ) (X : Tensor ℝ) (hX : X.data = List.ofFn x) (j : Fin n) :
+    smax X (x j) = softmaxF x j := by
+  unfold smax softmaxF expSum
+  rw [hX, List.map_ofFn, List.sum_ofFn]
+  rfl
+
+theorem sdot_ofFn {n : ℕ} (x g : Fin n → ℝ) (G X : Tensor ℝ) (hG : G.data = List.ofFn g) (hX : X.data = List.ofFn x) :
+    sdot G X = ∑ i, g i * softmaxF x i := by
+  have hz : List.zipWith (fun g a => g * smax X a) G.data X.data = List.ofFn (fun i => g i * softmaxF x i) := by
+    rw [hG]
+    conv => lhs; rw [hX]
+    apply List.ext_getElem
+    · simp
+    · intro i h1 h2
+      simp only [List.getElem_zipWith, List.getElem_ofFn]
+      rw [smax_ofFn x X hX]
+  unfold sdot
+  rw [hz, List.sum_ofFn]
+
+/-! ### the Softmax graph on a rank-1 input -/
+
+theorem vBroadcastN_one (c : ℝ) (n : Nat) (hn : 0 < n) :
+    vBroadcastN (⟨[1], [c]⟩ : Tensor ℝ) [n] = .ok ⟨[n], List.replicate n c⟩ := by
+  have hpos : validInputDims ([n].map Int.ofNat) = true := by
+    simp [validInputDims]; omega
+  unfold vBroadcastN vBroadcast
+  rw [hpos]
+  have : validBroadcast [1] (natDims ([n].map Int.ofNat)) = true := by simp [natDims, validBroadcast, validBroadcastLE]
+  simp only [this, Bool.and_self, if_true]
+  have hnd : natDims ([n].map Int.ofNat) = [n] := by simp [natDims]
+  rw [hnd, C13.broadcast_one c n hn]; rfl
+
+theorem target_n_1 (n : Nat) (hn : 0 < n) : targetBroadcastDims [n] [1] = [n] := by
+  simp only [targetBroadcastDims, List.reverse_cons, List.reverse_nil, List.nil_append, targetBroadcastLE]
+  by_cases h : n > 1
+  · simp [h]
+  · have : n = 1 := by omega
+    simp [this]
+
+/-- **the graph Softmax (`Dim = 0`) builds** on a tracked, unspent rank-1 input `x` of shape `[n]`: six new tensors
+    `e = Exp(x)`, `s = SumAlong(e,0)`, `s' = UnSqueeze(s,0)`, `e' = Broadcast(e,[n])`, `s'' = Broadcast(s',[n])`,
+    `r = Div(e',s'')`; their values — in particular **`r_j = exp(x_j) / Σ_k exp(x_k)`** — and their back edges -/
+theorem softmax_graph (H : Heap ℝ) (x n : Nat) (hwf : (H.val x).WF) (dX : (H.val x).dims = [n]) (l : Live H x) :
+    ∃ e s s' e' s'' r H', actForward (Activation.softmax 0) [some x] H = .ok (r, H') ∧ Extends H H' ∧
+      H'.val x = H.val x ∧
+      H'.val e = (H.val x).map Real.exp ∧ (H'.val s).dims = [] ∧ (H'.val s').dims = [1] ∧
+      H'.val e' = H'.val e ∧ H'.val s'' = ⟨[n], List.replicate n (expSum (H.val x))⟩ ∧
+      H'.val r = (H.val x).map (smax (H.val x)) ∧
+      H'.ctx e = liveCtx [⟨x, .expX e⟩] ∧
+      H'.ctx s = liveCtx [⟨e, .sumAlongX e 0⟩] ∧
+      H'.ctx s' = liveCtx [⟨s, .reshapeX s⟩] ∧
+      H'.ctx e' = liveCtx [⟨e, .bcastX e e'⟩] ∧
+      H'.ctx s'' = liveCtx [⟨s', .bcastX s' s''⟩] ∧
+      H'.ctx r = liveCtx [⟨e', .divA s''⟩, ⟨s'', .divB e' s''⟩] := by
+  have hn : 0 < n := hwf.2 n (by rw [dX]; simp)
+  have hlX : (H.val x).data.length = n := by rw [hwf.1, dX]; simp [prod]
+  have h0 : (((0 : Nat) : Int)) = (0 : Int) := rfl
+  -- forward run
+  obtain ⟨e, H1, re⟩ := ran_hUnary .exp x H
+  have vE : H1.val e = (H.val x).map Real.exp := by rw [re.val]; rfl
+  have wE : (H1.val e).WF := by rw [vE]; exact map_wf _ _ hwf
+  have dE : (H1.val e).dims = [n] := by rw [vE]; exact dX
+  have hsum : (H1.val e).sum = expSum (H.val x) := by rw [tensor_sum_eq, vE]; rfl
+  obtain ⟨s, H2, rs⟩ := ran_hAlong .sum e ((0 : Nat) : Int) H1 ⟨[], [expSum (H.val x)]⟩
+    (by rw [h0, C12.vAlong_rank1 .sum _ n dE wE]; simp only [Reducer.fn, hsum])
+  obtain ⟨s', H3, rs'⟩ := ran_hUnSqueeze s ((0 : Nat) : Int) H2 ⟨[1], [expSum (H.val x)]⟩
+    (by rw [rs.val]; exact unsq_scalar _)
+  have e13 : Extends H1 H3 := rs.ext.trans rs'.ext
+  have vE3 : H3.val e = (H.val x).map Real.exp := by rw [e13.val re.lt, vE]
+  have hz : Tensor.zipRaw Arith.div.fn (H3.val e) (⟨[n], List.replicate n (expSum (H.val x))⟩ : Tensor ℝ)
+      = some ⟨[n], List.zipWith Arith.div.fn (H3.val e).data (List.replicate n (expSum (H.val x)))⟩ := by
+    simp [Tensor.zipRaw, vE3, Tensor.map, dX, hlX]
+  obtain ⟨r, H4, rr⟩ := ran_hArith .div e s' H3 (Nat.lt_of_lt_of_le re.lt e13.1) rs'.lt (H3.val e)
+    ⟨[n], List.replicate n (expSum (H.val x))⟩ _
+    (by rw [rs'.val, vE3]; simp only [Tensor.map, dX, target_n_1 n hn]
+        have := vBroadcastN_self ((H.val x).map Real.exp) (map_wf _ _ hwf)
+        simpa [Tensor.map, dX] using this)
+    (by rw [rs'.val, vE3]; simp only [Tensor.map, dX, target_n_1 n hn]; exact vBroadcastN_one _ n hn)
+    hz
+  have hrun : actForward (Activation.softmax 0) [some x] H = .ok (r, H4) := by
+    unfold actForward
+    rw [bind_run (show (liftOut (oneInput [some x]) : HM ℝ Nat) H = .ok (x, H) from rfl)]
+    simp only []
+    rw [bind_run (show (getHeap : HM ℝ (Heap ℝ)) H = .ok (H, H) from rfl)]
+    rw [if_neg (by rw [dX]; simp)]
+    rw [bind_run re.run, bind_run rs.run, bind_run rs'.run]
+    exact rr.run
+  -- inversion: contexts
+  have le1 : Live H1 e := by
+    obtain ⟨_, _, c, l'⟩ := hUnary_live re.run l
+    exact l'
+  obtain ⟨_, _, ce, _⟩ := hUnary_live re.run l
+  obtain ⟨_, _, cs, ls⟩ := hAlong_live rs.run le1
+  obtain ⟨_, _, cs', ls'⟩ := hUnSqueeze_live rs'.run ls
+  have le3 : Live H3 e := le1.ext e13
+  obtain ⟨e', s'', e4, ve', vs'', _, ce', cs'', cr, le', ls'', lr⟩ := hArith_live rr.run le3 ls'
+  rw [rs'.val, vE3] at ve' vs''
+  simp only [Tensor.map, dX, target_n_1 n hn] at ve' vs''
+  rw [vBroadcastN_one _ n hn] at vs''
+  have hself := vBroadcastN_self ((H.val x).map Real.exp) (map_wf _ _ hwf)
+  simp only [Tensor.map, dX] at hself
+  rw [hself] at ve'
+  injection ve' with ve'
+  injection vs'' with vs''
+  have hext : Extends H H4 := ((re.ext.trans rs.ext).trans rs'.ext).trans rr.ext
+  refine ⟨e, s, s', e', s'', r, H4, hrun, hext, hext.val l.1, ?_, ?_, ?_, ?_, vs''.symm, ?_, ?_, ?_, ?_, ce', cs'', cr⟩
+  · rw [e4.val le3.1, vE3]
+  · rw [(rs'.ext.trans rr.ext).val rs.lt, rs.val]
+  · rw [rr.ext.val rs'.lt, rs'.val]
+  · rw [← ve', e4.val le3.1, vE3]; simp only [Tensor.map, dX]
+  · rw [rr.val, vE3]
+    simp only [Tensor.map, Arith.fn, dX]
+    congr 1
+    apply List.ext_getElem
+    · simp [hlX]
+    · intro i h1 h2
+      simp [smax]
+  · rw [(e13.trans e4).ctx le1.1, ce]; rfl
+  · rw [(rs'.ext.trans rr.ext).ctx ls.1, cs]; rfl
+  · rw [rr.ext.ctx ls'.1, cs']
+
+/-! ## Graph and local backward pass together
+
+For the heap the forward pass actually returns: the back edges (which rule sits on which edge) and, for every
+upstream gradient `G` of the result's shape, the local backward pass along exactly those edges. By
+`C01.backprop_adjoint` these rule applications are what `BackPropagate` performs, once per edge. -/
+
+/-- **Sigmoid** -/
+theorem sigmoid_vjp_on_graph (bm : BMode) (H : Heap ℝ) (x : Nat) (hwf : (H.val x).WF) (l : Live H x) :
+    ∃ o x1 x2 o' x2' y r H', actForward Activation.sigmoid [some x] H = .ok (r, H') ∧
+      H'.val r = (H.val x).map sig ∧
+      H'.ctx r = liveCtx [⟨y, .powX y (-1)⟩] ∧ H'.ctx y = liveCtx [⟨o', .idG⟩, ⟨x2', .idG⟩] ∧
+      H'.ctx o' = liveCtx [⟨o, .bcastX o o'⟩] ∧ H'.ctx x2' = liveCtx [⟨x2, .bcastX x2 x2'⟩] ∧
+      H'.ctx o = liveCtx [⟨x, .powX x 0⟩] ∧ H'.ctx x2 = liveCtx [⟨x1, .expX x2⟩] ∧ H'.ctx x1 = liveCtx [⟨x, .scaleX (-1)⟩] ∧
+      ∀ G : Tensor ℝ, G.WF → G.dims = (H.val x).dims →
+        ∃ gy go gx2 gx1 c1 c2,
+          evalRule bm H' G (.powX y (-1)) = .ok gy ∧ evalRule bm H' gy .idG = .ok gy ∧
+          evalRule bm H' gy (.bcastX o o') = .ok go ∧ evalRule bm H' gy (.bcastX x2 x2') = .ok gx2 ∧
+          evalRule bm H' go (.powX x 0) = .ok c1 ∧
+          evalRule bm H' gx2 (.expX x2) = .ok gx1 ∧ evalRule bm H' gx1 (.scaleX (-1)) = .ok c2 ∧
+          vArith .add c2 c1 = .ok ⟨G.dims, List.zipWith (fun g a => g * (sig a * (1 - sig a))) G.data (H.val x).data⟩ := by
+  obtain ⟨o, x1, x2, o', x2', y, r, H', hrun, _, hx, hx2, ho', hx2', hy, hr, co, cx1, cx2, co', cx2', cy, cr⟩ :=
+    sigmoid_graph H x hwf l
+  refine ⟨o, x1, x2, o', x2', y, r, H', hrun, hr, cr, cy, co', cx2', co, cx2, cx1, ?_⟩
+  intro G wG hd
+  have := (sigmoid_local_vjp bm H' x o x2 o' x2' y G (by rw [hx]; exact hx2) ho' hx2' (by rw [hx]; exact hy)
+    (by rw [hx]; exact hwf) wG (by rw [hx]; exact hd)).1
+  rw [hx] at this
+  exact this
+
+/-- **LeakyRelu** -/
+theorem leaky_vjp_on_graph (bm : BMode) (m : ℝ) (H : Heap ℝ) (x : Nat) (hwf : (H.val x).WF) (l : Live H x) :
+    ∃ z s1 s2 s3 s1' s3' r H', actForward (Activation.leaky m) [some x] H = .ok (r, H') ∧
+      H'.val r = (H.val x).map (fun a => max 0 a + m * min 0 a) ∧
+      H'.ctx r = liveCtx [⟨s1', .idG⟩, ⟨s3', .idG⟩] ∧
+      H'.ctx s1' = liveCtx [⟨s1, .bcastX s1 s1'⟩] ∧ H'.ctx s3' = liveCtx [⟨s3, .bcastX s3 s3'⟩] ∧
+      H'.ctx s3 = liveCtx [⟨s2, .scaleX m⟩] ∧
+      H'.ctx s2 = liveCtx [⟨z, .elext s2 z x⟩, ⟨x, .elext s2 x z⟩] ∧
+      H'.ctx s1 = liveCtx [⟨z, .elext s1 z x⟩, ⟨x, .elext s1 x z⟩] ∧
+      H'.ctx z = liveCtx [⟨x, .scaleX 0⟩] ∧
+      ∀ G : Tensor ℝ, G.WF → G.dims = (H.val x).dims →
+        ∃ g2 gz2 c2 gz1 c1 gzt cz c21,
+          evalRule bm H' G .idG = .ok G ∧
+          evalRule bm H' G (.bcastX s1 s1') = .ok G ∧ evalRule bm H' G (.bcastX s3 s3') = .ok G ∧
+          evalRule bm H' G (.scaleX m) = .ok g2 ∧
+          evalRule bm H' g2 (.elext s2 z x) = .ok gz2 ∧ evalRule bm H' g2 (.elext s2 x z) = .ok c2 ∧
+          evalRule bm H' G (.elext s1 z x) = .ok gz1 ∧ evalRule bm H' G (.elext s1 x z) = .ok c1 ∧
+          vArith .add gz2 gz1 = .ok gzt ∧ evalRule bm H' gzt (.scaleX 0) = .ok cz ∧
+          vArith .add c2 c1 = .ok c21 ∧
+          vArith .add c21 cz = .ok ⟨G.dims, List.zipWith (fun g a => g * leakyD m a) G.data (H.val x).data⟩ := by
+  obtain ⟨z, s1, s2, s3, s1', s3', r, H', hrun, _, hx, hz, hs1, hs2, hs1', hs3', hr, cz, cs1, cs2, cs3, cs1', cs3', cr⟩ :=
+    leaky_graph m H x hwf l
+  refine ⟨z, s1, s2, s3, s1', s3', r, H', hrun, hr, cr, cs1', cs3', cs3, cs2, cs1, cz, ?_⟩
+  intro G wG hd
+  have := (leaky_local_vjp bm H' x z s1 s2 s3 s1' s3' m G (by rw [hx]; exact hz) (by rw [hx]; exact hs1)
+    (by rw [hx]; exact hs2) hs1' hs3' (by rw [hx]; exact hwf) wG (by rw [hx]; exact hd)).1
+  rw [hx] at this
+  exact this
+
+/-- **Softmax**, rank-1 input, `Broadcast` rule in `sum` mode -/
+theorem softmax_vjp_on_graph (H : Heap ℝ) (x n : Nat) (hwf : (H.val x).WF) (dX : (H.val x).dims = [n]) (l : Live H x) :
+    ∃ e s s' e' s'' r H', actForward (Activation.softmax 0) [some x] H = .ok (r, H') ∧
+      H'.val r = (H.val x).map (smax (H.val x)) ∧
+      H'.ctx r = liveCtx [⟨e', .divA s''⟩, ⟨s'', .divB e' s''⟩] ∧
+      H'.ctx s'' = liveCtx [⟨s', .bcastX s' s''⟩] ∧ H'.ctx s' = liveCtx [⟨s, .reshapeX s⟩] ∧
+      H'.ctx s = liveCtx [⟨e, .sumAlongX e 0⟩] ∧ H'.ctx e' = liveCtx [⟨e, .bcastX e e'⟩] ∧
+      H'.ctx e = liveCtx [⟨x, .expX e⟩] ∧
+      ∀ G : Tensor ℝ, G.WF → G.dims = [n] →
+        ∃ ga gb g1 g2 ce1 ce2 ge,
+          evalRule .sum H' G (.divA s'') = .ok ga ∧ evalRule .sum H' G (.divB e' s'') = .ok gb ∧
+          evalRule .sum H' gb (.bcastX s' s'') = .ok g1 ∧ evalRule .sum H' g1 (.reshapeX s) = .ok g2 ∧
+          evalRule .sum H' g2 (.sumAlongX e 0) = .ok ce1 ∧ evalRule .sum H' ga (.bcastX e e') = .ok ce2 ∧
+          vArith .add ce1 ce2 = .ok ge ∧
+          evalRule .sum H' ge (.expX e) = .ok ⟨[n], List.zipWith (fun g a => smax (H.val x) a * (g - sdot G (H.val x)))
+            G.data (H.val x).data⟩ := by
+  obtain ⟨e, s, s', e', s'', r, H', hrun, _, hx, he, hs, hs', he', hs'', hr, ce, cs, cs', ce', cs'', cr⟩ :=
+    softmax_graph H x n hwf dX l
+  refine ⟨e, s, s', e', s'', r, H', hrun, hr, cr, cs'', cs', cs, ce', ce, ?_⟩
+  intro G wG hd
+  have := softmax_local_vjp H' x e s s' e' s'' n G (by rw [hx]; exact dX) (by rw [hx]; exact he) hs hs' he'
+    (by rw [hx]; exact hs'') (by rw [hx]; exact hwf) wG hd
+  rw [hx] at this
+  exact this
+
+/-- non-vacuity: a heap with a tracked, unspent, well-formed rank-1 tensor -/
+example : ∃ (H : Heap ℝ) (x : Nat), (H.val x).WF ∧ (H.val x).dims = [2] ∧ Live H x :=
+  ⟨#[⟨⟨[2], [1, -1]⟩, freshCtx true⟩], 0, by simp [Heap.val, Tensor.WF, prod], by simp [Heap.val],
+    by simp [Live, Heap.tracked, Heap.dirty, Heap.ctx, freshCtx]⟩
 
 end C15x
 end Qeep
